@@ -52,4 +52,7 @@ InvSameShapes ==
       /\ Sub1(y, x) <=> (CO!LowLe(T(a), T(b)) /\ CO!UpLe(T(d), T(c)))
       /\ Diff1(x, y) = (IF b.k = "unb" THEN <<>> ELSE New(a, MinUp(c, FlipToUp(b))))
                        \o (IF d.k = "unb" THEN <<>> ELSE New(MaxLo(a, FlipToLo(d)), c))
+      /\ LET R == Diff1(x, y) IN
+           {[lo |-> T(R[i].lo), up |-> T(R[i].up)] : i \in 1..Len(R)}
+             = CO!Pieces([lo |-> T(a), up |-> T(c)], [lo |-> T(b), up |-> T(d)])
 =============================================================================
